@@ -200,6 +200,13 @@ def gen_case(r, k, kind):
             case["expect"] = "table-refused"
     tb = case_table(rt, case)
     case["table"] = None if tb is None else tb.decode("latin1")
+    # ---- a stream that is not a thread (ovni.part = "other", no events): the emulator ignores it with a warning, the player
+    # still sees it; it must change nothing, wherever its directory sorts among the thread streams
+    rx = r.fork("extra")
+    if case["expect"] in ("valid", "backwards", "negative") and rx.chance(1, 5):
+        s0 = rx.choice(streams)
+        case["extra_stream"] = rx.choice(["aux.0", "loom.%s/aux" % s0["loom"], "loom.%s/proc.%d/other.1" % (s0["loom"], s0["pid"]),
+                                          "loom.%s/proc.%d/thread.%d.x" % (s0["loom"], s0["pid"], s0["tid"]), "zz.last"])
     return case
 
 
@@ -249,6 +256,13 @@ def write_case(case, d):
         evs = [trace.ev_bytes(m, c, p) for (c, m, p) in stream_events(case, s)]
         tr.add_thread(s["loom"], s["pid"], s["tid"], meta, evs)
     tr.write(d, order=case["order"])
+    if case.get("extra_stream"):
+        xd = os.path.join(d, case["extra_stream"])
+        os.makedirs(xd, exist_ok=True)
+        with open(os.path.join(xd, "stream.obs"), "wb") as f:
+            f.write(trace.STREAM_HEADER)
+        with open(os.path.join(xd, "stream.json"), "w") as f:
+            json.dump({"version": 3, "ovni": {"part": "other", "lib": {"version": "1.11.0", "commit": "verif"}}}, f)
     if case.get("table") is not None:                      # clkoff: the bytes prepared by case_table (the model reads the same)
         with open(os.path.join(d, "clock-offsets.txt"), "wb") as f:
             f.write(case["table"].encode("latin1"))
@@ -419,6 +433,7 @@ def parse_model(ans):
 
 def case_public(case):
     return {"kind": case["kind"], "offsets": case["offsets"], "clock_offsets_txt": case.get("table"), "creation_order": case["order"], "expect": case["expect"],
+            "extra_non_thread_stream_dir": case.get("extra_stream"),
             "streams": [{"relpath": relpath(s), "clocks": s["clocks"]} for s in case["streams"]]}
 
 
